@@ -20,7 +20,7 @@
 (*   akind  rule name -> "none" | "single" | "list" | "obj" | "collect" |   *)
 (*          "collect_sep" | "optional" | "zero" | "k0" | "kF" | "kS" | "kL" *)
 (*          | "pass_none" | "pass_nochange" | "pass_empty" | "pass_single"  *)
-(*          | "pass_inner"                                                  *)
+(*          | "pass_inner" | "kN" (stateful counter)                        *)
 (*          (constant actions; also allowed for TERMINAL names)             *)
 (*   assign p+1 -> sequence of [name, op, idx] sorted by name (idx 1-based) *)
 (*   tact   set of terminals that have a (recording) action                 *)
@@ -37,15 +37,27 @@ KW(assign, p, sub) ==
 SpanS(n) == IF n.s = n.e THEN 0 - 1 ELSE n.s
 SpanE(n) == IF n.s = n.e THEN 0 - 1 ELSE n.e
 
-RECURSIVE Eval(_, _, _, _, _)
-Eval(P, akind, assign, tact, n) ==
+\* A STATEFUL action ("kN": returns how many such actions have been called so far, itself included).  The actions of a tree are called in
+\* the order the LR parser reduces: bottom up, left to right (a terminal's action when the token is shifted).  `off` = number of kN calls
+\* that precede the subtree n in that order; the value of a kN node is off + (the kN calls inside it) + 1.
+RECURSIVE CountN(_, _, _)
+RECURSIVE CountNSeq(_, _, _, _)
+CountNSeq(P, akind, cs, j) == IF j = 0 THEN 0 ELSE CountN(P, akind, cs[j]) + CountNSeq(P, akind, cs, j - 1)
+CountN(P, akind, n) ==
+  IF n.k = "T" THEN (IF n.t \in DOMAIN akind /\ akind[n.t] = "kN" THEN 1 ELSE 0)
+  ELSE (IF akind[P[n.p+1].lhs] = "kN" THEN 1 ELSE 0) + CountNSeq(P, akind, n.c, Len(n.c))
+
+RECURSIVE EvalO(_, _, _, _, _, _)
+EvalO(P, akind, assign, tact, n, off) ==
   IF n.k = "T" THEN (IF n.t \in DOMAIN akind /\ akind[n.t] \in ConstKinds THEN Const(akind[n.t])
+                     ELSE IF n.t \in DOMAIN akind /\ akind[n.t] = "kN" THEN <<"i", off + 1>>
                      ELSE IF n.t \in tact THEN <<"tc", n.t, <<"s", n.vs>>>> ELSE <<"s", n.vs>>)
   ELSE LET X == P[n.p+1].lhs
-           sub == [ i \in DOMAIN n.c |-> Eval(P, akind, assign, tact, n.c[i]) ]
+           sub == [ i \in DOMAIN n.c |-> EvalO(P, akind, assign, tact, n.c[i], off + CountNSeq(P, akind, n.c, i - 1)) ]
            alt == AltOf(P, n.p)
            kind == akind[X]
        IN CASE kind \in ConstKinds -> Const(kind)
+            [] kind = "kN"            -> <<"i", off + CountNSeq(P, akind, n.c, Len(n.c)) + 1>>
             \* built-in actions named in the grammar (docs/actions.md)
             [] kind = "pass_none"     -> <<"n">>
             [] kind = "pass_nochange" -> <<"l", sub>>
@@ -61,4 +73,5 @@ Eval(P, akind, assign, tact, n) ==
             [] kind = "optional" -> IF Len(sub) = 1 THEN sub[1] ELSE <<"n">>
             [] kind = "zero"    -> IF Len(sub) = 1 THEN sub[1] ELSE <<"l", <<>>>>
             [] OTHER            -> <<"?", kind>>
+Eval(P, akind, assign, tact, n) == EvalO(P, akind, assign, tact, n, 0)
 =============================================================================
